@@ -184,3 +184,34 @@ fn k1_pollarray_index_helpers() {
         assert!(seen_p[i] == expect_pending[i]);
     }
 }
+
+/// K1 (bounded): PollVec -- the Vec twin of the index helpers above (N = 3, all 27 states).  A harness for `resize` across
+/// SmallVec's inline capacity (2 -> 24 entries) did not finish in CBMC within 25 minutes and is not included.
+#[kani::proof]
+#[kani::unwind(5)]
+fn k1_pollvec_index_helpers() {
+    use crate::utils::PollVec;
+    let mut st = PollVec::new(3);
+    st[0] = any_state();
+    st[1] = any_state();
+    st[2] = any_state();
+    let mut seen = [false; 3];
+    let mut last: Option<usize> = None;
+    for i in st.ready_indexes() {
+        assert!(i < 3 && st[i].is_ready() && !seen[i]);
+        assert!(last.map_or(true, |l| l < i));
+        seen[i] = true;
+        last = Some(i);
+    }
+    for i in 0..3 {
+        assert!(seen[i] == st[i].is_ready());
+    }
+    let mut seen_p = [false; 3];
+    for i in st.pending_indexes() {
+        assert!(i < 3 && st[i].is_pending() && !seen_p[i]);
+        seen_p[i] = true;
+    }
+    for i in 0..3 {
+        assert!(seen_p[i] == st[i].is_pending());
+    }
+}
